@@ -21,7 +21,7 @@ def _src_text(c):
     return base64.b64decode(c['src_b64']).decode('utf-8', 'replace')
 
 
-def classify(c, r):
+def classify(c, r, version=''):
     """Mechanism keys (known_findings.txt). Predicates look at the input's tree and the failure record."""
     exc = r.get('exc') or {}
     kind = r.get('kind')
@@ -38,9 +38,7 @@ def classify(c, r):
                 for m in ast.walk(n):
                     if isinstance(m, ast.FormattedValue):
                         for k in ast.walk(m.value):
-                            if isinstance(k, ast.Constant) and isinstance(k.value, bytes) and (any(b >= 0x80 or b == 0x5c or b == 0 for b in k.value)):
-                                return 'C08.fstring.nested_literal_unrepresentable'
-                            if isinstance(k, ast.Constant) and isinstance(k.value, str) and ('\0' in k.value or '\\' in k.value):
+                            if isinstance(k, ast.Constant) and isinstance(k.value, (bytes, str)):
                                 return 'C08.fstring.nested_literal_unrepresentable'
     if kind == 'raised' and exc.get('type') == 'ValueError' and 'integer string conversion' in detail:
         return 'C08.int.decimal_limit'
@@ -53,6 +51,19 @@ def classify(c, r):
                 return 'C02.match.guard_needs_parentheses'
     if kind == 'output-does-not-compile' and 'cannot rebind comprehension iteration variable' in detail:
         return 'C03.walrus.comprehension_collision'
+    if kind == 'output-does-not-compile' and 'no binding for nonlocal' in detail and (c['opts'].get('remove_debug') or c['opts'].get('remove_asserts')):
+        # attribution: with the two statement-removing unsafe options off the output compiles
+        try:
+            import python_minifier as pm
+            o2 = dict(c['opts'])
+            o2['remove_debug'] = False
+            o2['remove_asserts'] = False
+            compile(pm.minify(src, **common.opts_to_kwargs(o2, pm)), 'o', 'exec')
+            return 'C08.remove_debug.removes_only_binding_of_nonlocal'
+        except Exception:
+            return None
+    if kind == 'raised' and exc.get('type') == 'UnstableMinification' and str(version).startswith('2.') and re.search(r'(^|\n)\s*exec\b', src):
+        return 'C02.py2.exec_operand_parentheses'
     if kind == 'raised' and exc.get('type') == 'UnicodeDecodeError' and '_find_shebang' in exc.get('site', ''):
         return 'C16.shebang.non_utf8_bytes'
     return None
@@ -134,7 +145,7 @@ def main(tier, seed):
                     st['invalid_rejected'] += 1
                     run.count('invalid_sources_rejected_with_parser_exception')
             if r.get('status') == 'violation':
-                mech = classify(c, r)
+                mech = classify(c, r, version)
                 out = {'status': 'violation', 'violations': [{
                     'mech': mech,
                     'detail': '%s %s %s %s' % (version, r.get('kind'), json.dumps(r.get('exc') or {}), r.get('detail') or ''),
